@@ -72,7 +72,7 @@ theorem captureTerm_lit (T : Tables) (hT : TablesOK T) (urlOk : List Nat → Boo
     · next hl =>
       subst hl
       cases lang with
-      | none => exact absurd rfl hlang
+      | none => exact absurd rfl hlang.1
       | some t =>
         simp only [List.cons_append, List.append_assoc, List.nil_append]
         simp [captureTerm, posObject, captureLiteral, scanLit_body T hT e ascii lex hlex,
@@ -83,9 +83,10 @@ theorem captureTerm_lit (T : Tables) (hT : TablesOK T) (urlOk : List Nat → Boo
         | none => rfl
         | some t => exact absurd hlang.1 hl
       subst this
+      have hdir : ¬ dt = rdfDirLangString := hlang.2
       simp only [writeIRI, List.cons_append, List.append_assoc, List.nil_append]
       simp [captureTerm, posObject, captureLiteral, scanLit_body T hT e ascii lex hlex,
-        goString_id_of_scalar hlex, captureIRI_write T hT urlOk e ascii dt hdt, hl]
+        goString_id_of_scalar hlex, captureIRI_write T hT urlOk e ascii dt hdt, hl, hdir]
 
 
 theorem captureTerm_obj (T : Tables) (hT : TablesOK T) (urlOk : List Nat → Bool) (e : End)
